@@ -89,7 +89,7 @@ func (s *seriesIt) Seek(t int64) bool {
 		}
 		u = idx
 	}
-	s.idx = idx
+	s.idx = l
 	return s.idx < len(s.samples)
 }
 
